@@ -286,12 +286,16 @@ func c09Exec(p *puppet.Peer, in c09Ep) {
 				}
 			}
 			p.Absorb(5)
-		case "chain": // dtlcp: [handshake record of Fill bytes][empty handshake record of another epoch] in one datagram
+		case "chain": // dtlcp: [handshake record of Fill bytes][empty handshake record of another epoch] in one datagram; Typ 21: followed by a warning alert
 			for i := 0; i < n && !p.L.TargetDone(); i++ {
 				r1 := p.Seal(puppet.RecHS, c09Payload(st))
 				r2 := p.Seal(puppet.RecHS, nil)
 				r2[4]++
-				p.SendRecords(r1, r2)
+				if st.Typ == 21 {
+					p.SendRecords(r1, r2, p.Seal(puppet.RecAlert, []byte{1, 90}))
+				} else {
+					p.SendRecords(r1, r2)
+				}
 				if (i+1)%batch == 0 {
 					p.Absorb(5)
 				}
